@@ -29,6 +29,8 @@ func Usage(ctx context.Context, path string) (*model.Stat, error) {
 		return nil, fmt.Errorf("usage with context: %w", err)
 	}
 
+	st.Free = reportedFree(path, st.Free)
+
 	return &model.Stat{
 		Path:  st.Path,
 		Total: st.Total,
